@@ -336,8 +336,13 @@ def oracle(case):
     with quiet():
         J = X.fd_jac(b, op, tdom, x)
     if not close(r["jac"], J, 2e-6):
-        return (f"Jacobian differs from finite differences of the operator (max dev "
-                f"{np.max(np.abs(r['jac'] - J)):.3g})", dict(sig, kind="jacobian"))
+        # a genuine error persists under a 10x smaller step; a finite-difference stencil straddling a kink/pole does not
+        with quiet():
+            J2 = X.fd_jac(b, op, tdom, x, rel=1e-5)
+        if not close(r["jac"], J2, 2e-5):
+            return (f"Jacobian differs from finite differences of the operator (max dev "
+                    f"{np.max(np.abs(r['jac'] - J2)):.3g})", dict(sig, kind="jacobian"))
+        J = J2
     if not close(r["adj"], r["jac"].T, 1e-12):
         return ("adjoint Jacobian is not the transpose of the Jacobian", dict(sig, kind="adjoint"))
     if not case["wm"]:
